@@ -239,6 +239,9 @@ func nestedZipContent(rng *rand.Rand) []byte {
 	return buf.Bytes()
 }
 
+// archiveBaseName is the name of the archive every tree is zipped into (main.go: <sandbox>/tree.zip).
+const archiveBaseName = "tree.zip"
+
 func genCase(r *vrun.Run, idx int) caseSpec {
 	rng := r.Rand("c07", idx)
 	c := caseSpec{Index: idx, Backend: "os", classes: map[string]bool{}, reqClass: map[string]bool{}}
@@ -298,6 +301,7 @@ func genCase(r *vrun.Run, idx int) caseSpec {
 		palette = append(palette, []string{"dotdot-inside", "dotdot-lead", "dotdot-trail", "only-dots"}[rng.IntN(4)])
 	}
 	recursiveUnzip := c.Limits == "default-recursive"
+	usedArchiveName := false
 
 	type dirRec struct {
 		path  string
@@ -319,6 +323,10 @@ func genCase(r *vrun.Run, idx int) caseSpec {
 		}
 		cls := palette[rng.IntN(len(palette))]
 		name := genName(rng, cls)
+		if !recursiveUnzip && !usedArchiveName && idx%6 == 1 && len(c.Nodes) >= 1 && rng.IntN(3) == 0 {
+			// an entry named like the archive the tree is zipped into (the archive itself is written elsewhere)
+			name, usedArchiveName = archiveBaseName, true
+		}
 		if parent.names[name] {
 			name = genName(rng, "plain") + fmt.Sprint(len(c.Nodes))
 		}
